@@ -28,7 +28,10 @@ def ingest(paths):
         for line in open(p):
             if not line.startswith("["):
                 continue
-            name, tests, demo, checks = json.loads(line)
+            rec = json.loads(line)
+            if len(rec) != 4 or rec[1] in ("PATCH-FAILED", "SUPERSEDED"):
+                continue
+            name, tests, demo, checks = rec
             old = res.get(name)
             if old and tests == "skipped":
                 tests, demo = old[1], old[2]
@@ -53,6 +56,9 @@ def table():
         np_ = os.path.join(SEEDED, name, "notes.md")
         summ = open(np_).readline().strip().lstrip("# ").replace("|", "\\|")[:140] if os.path.exists(np_) else ""
         rb = m.get("reported_by") or []
+        if m.get("superseded"):
+            rows.append(f"| {name} | {summ} | superseded: {m['superseded'][:160].replace('|', chr(92) + '|')} |")
+            continue
         n += 1
         hit += bool(rb)
         cell = "; ".join(f"{r['check']}: {r['signatures'][0]}".replace("|", "\\|") for r in rb) or "**not reported** (see text)"
